@@ -221,6 +221,8 @@ func crashClass(sp scenarioSpec) string {
 }
 
 // childMain: run the jobs of the spec file, stream records.
+var childStart = time.Now()
+
 func childMain(env *vh.Env) {
 	if *flagChildD71 {
 		budget := 8 * time.Second
@@ -290,10 +292,12 @@ func childMain(env *vh.Env) {
 		wg.Add(1)
 		sem <- struct{}{}
 		wgt := specWeight(j.Spec)
-		gate.acquire(wgt)
 		go func(j job) {
 			defer wg.Done()
 			defer func() { <-sem }()
+			// (waiting here, not in the dispatch loop: a heavy scenario that has to wait for memory does not
+			// hold back the light ones behind it)
+			gate.acquire(wgt)
 			defer gate.release(wgt)
 			emit(scenRecord{Event: "start", Idx: j.Idx, Spec: j.Spec})
 			r := evaluate(j, env.Driver)
@@ -306,7 +310,7 @@ func childMain(env *vh.Env) {
 			if p := os.Getenv("C06_DEBUG"); strings.HasPrefix(p, "/") {
 				// C06_DEBUG=/path: one line per scenario appended to that file
 				if f, err := os.OpenFile(p, os.O_CREATE|os.O_WRONLY|os.O_APPEND, 0o644); err == nil {
-					fmt.Fprintf(f, "%-60s faults=%d/%d conns=%d sends=%d recv=%d wall=%dms\n", j.Spec.Name, r.Faults, len(j.Spec.Script), len(r.Conns), r.Sends, r.Received, r.WallMs)
+					fmt.Fprintf(f, "%-60s faults=%d/%d conns=%d sends=%d recv=%d done_at=%dms wall=%dms\n", j.Spec.Name, r.Faults, len(j.Spec.Script), len(r.Conns), r.Sends, r.Received, time.Since(childStart).Milliseconds(), r.WallMs)
 					f.Close()
 				}
 			} else if p != "" {
@@ -591,7 +595,7 @@ func runIsolated(env *vh.Env, jobs []job, par int) (map[int]*scenRecord, []crash
 		batchTimeout = 45 * time.Minute
 	}
 	pending := jobs
-	mem := int64(3 << 30)
+	mem := int64(6 << 30)
 	if raceEnabled {
 		mem = 3 << 29 // the race detector's shadow memory multiplies what a scenario holds
 	}
